@@ -753,7 +753,8 @@ def nameUpdate (s : St) (txAcc sender : Bytes) (name to : Bytes) (amt : Nat) : R
   | none => (.insufficient, s)
   | some bal => (.ok, { s with bal := bal, names := s.names.set name ⟨s.resolve to, s.resolve to⟩ })
 
-/-- v1setOwner (sender ≠ new owner; the case sender = owner is DESIGN §5 lead 11, property C01). -/
+/-- v1setOwner: the whole balance of `aergo.name` goes to the new owner (also when the new owner is the
+sender: since repair 583738ca the live sender record is credited, DESIGN §5 lead 11). -/
 def nameSetOwner (s : St) (owner : Bytes) : Res × St :=
   if (s.names.get nameAddr).isSome then (.ownerSet, s) else
   match sendBalance s.bal nameAddr owner (s.balOf nameAddr) with
